@@ -36,7 +36,52 @@ def catalogue():
     cat.append(dict(kind="unknown-method-typed", nested=True))
     for d in (0, 1, 3):
         cat.append(dict(kind="result-unsendable", depth=d))
+    # exception classes that share their bare name with a class of another module
+    for i, h in enumerate(sorted(HOMONYM_NAMES)):
+        cat.append(dict(kind="raise", cls=h, msg=MSGS[(3 * i + 1) % len(MSGS)]))
     return cat
+
+
+HOMONYM_NAMES = ["Rejected@alpha", "Rejected@beta", "Rejected@beta.sub", "TimeoutError@builtins", "TimeoutError@twisted",
+                 "ConnectionRefusedError@builtins", "ConnectionRefusedError@twisted", "ValueError@alpha", "ValueError"]
+NONOK = ("illtyped", "illtyped-deep", "unsendable", "slicer-raises", "surrogate")
+CALLER_SIDE = ("unsendable", "slicer-raises", "surrogate")
+
+
+def multi_catalogue(thorough):
+    """several faults in ONE call: every pair of argument positions x every pair of fault kinds (caller-side and
+    callee-side combined), with a known / unknown method on the constrained target, and on the schema-less target"""
+    vecs = [("ok", "ok", "ok")]
+    for i in range(3):
+        for k in NONOK:
+            v = ["ok"] * 3
+            v[i] = k
+            vecs.append(tuple(v))
+    for i in range(3):
+        for j in range(i + 1, 3):
+            for k1 in NONOK:
+                for k2 in NONOK:
+                    v = ["ok"] * 3
+                    v[i], v[j] = k1, k2
+                    vecs.append(tuple(v))
+    if thorough:
+        vecs += [(a, b, c) for a in NONOK for b in NONOK for c in NONOK]
+    out = []
+    for v in vecs:
+        out.append(dict(kind="multi", target="typed", known=True, slots=list(v)))
+        out.append(dict(kind="multi", target="typed", known=False, slots=list(v)))
+        if all(k in ("ok",) + CALLER_SIDE for k in v) or thorough:
+            out.append(dict(kind="multi", target="plain", slots=list(v)))
+    return out
+
+
+def multi_expect(spec):
+    """-> 'local' | 'remote' | ('ok', value)"""
+    if any(k in CALLER_SIDE for k in spec["slots"]):
+        return "local"
+    if spec["target"] == "typed" and (not spec.get("known", True) or any(k != "ok" for k in spec["slots"])):
+        return "remote"
+    return ("ok", 3 if spec["target"] == "plain" else 6)
 
 
 # inputs on which the current tree is known (or was known) to violate the property; each has its own signature
@@ -56,7 +101,10 @@ def run(ctx):
                 "raising Violation after n tokens at depth d, ill-typed argument at depth d against the callee's "
                 "RemoteInterface, mixed-type dict keys, 7 exception classes x 19 message shapes (empty/ASCII/2-3-4-byte "
                 "characters, lengths around the 1000-byte limit, cut inside a character), unknown method/object, result "
-                "violating the callee's or the caller's schema, unsendable result at depth d), both settings of "
+                "violating the callee's or the caller's schema, unsendable result at depth d; SEVERAL faults in one call: every "
+                "pair of argument positions x every pair of {callee-schema-only, caller-unserializable} fault kinds x known/"
+                "unknown method; exception classes sharing a bare name across modules, every ordered pair, within and across "
+                "batches; every batch is followed by calls whose arguments share containers), both settings of "
                 "unsafeTracebacks and expose-remote-exception-types; non-trivial = distinct batch in which every Deferred "
                 "fired and the faulty call really failed (or, for mixed keys, really round-tripped)")
     ctx.assumptions = [
@@ -66,6 +114,9 @@ def run(ctx):
         "direct oracle (callee-side outcomes), not by the theorem",
         "the slicers' token *values* are abstracted (TData); the correspondence compares the OPEN/CLOSE/ABORT skeleton with "
         "its numbers and the count of primitive tokens",
+        "the counting receiver of lib/Send.v (cstate: OPEN numbers, discard, left-behind unslicer) is tied to Banana.handleData / "
+        "call.py only by translated shape facts (counter advanced for rejected OPENs; Call/Answer/ErrorUnslicer.reportViolation "
+        "return the failure) and by the direct oracle (real counters of both ends compared after every batch)",
         "utf8_decode_ignore is exact only on prefixes of well-formed UTF-8 (proved to be the only inputs truncate gives it)",
         "Tub.setOption('expose-remote-exception-types') -> Broker._expose_remote_exception_types plumbing is checked on a "
         "real Tub/Broker once per run, the batches set the Broker attributes directly",
@@ -131,6 +182,19 @@ def judge_faulty(impl, spec, d, opts):
     k = spec["kind"]
     if d is None:
         return "the faulty call's Deferred never fired"
+    if k == "multi":
+        want = multi_expect(spec)
+        if isinstance(want, tuple):
+            return None if d["ok"] and d["value"] == want[1] else "a fault-free call got %r" % (short(d),)
+        if d["ok"]:
+            return "the faulty call succeeded with %r" % (d["value"],)
+        if want == "local":
+            if d["wrapped"] or d["copied"] or d["type"] != "foolscap.tokens.Violation":
+                return "expected the caller's own Violation (an argument could not be serialized), got %r" % (short(d),)
+            return None
+        if d["wrapped"] != (not opts["expose"]) or not d["copied"] or d["type"] != "foolscap.tokens.Violation":
+            return "expected the callee's Violation (wrapped=%s), got %r" % (not opts["expose"], short(d))
+        return None
     if k == "mixed-keys":
         return None if d["ok"] and d["value"] == {1: 2, 'a': 3} else "a dict with keys of mixed types did not round-trip: %r" % (short(d),)
     if d["ok"]:
@@ -161,6 +225,12 @@ def judge_faulty(impl, spec, d, opts):
             return "the remote %s was reported as a Violation: %s" % (spec["cls"], d["value"][:200])
         if not trunc_expect(qual(cls), 200)(d["type"]):
             return "type name %r does not identify %s" % (d["type"], qual(cls))
+        if len(qual(cls).encode()) <= 200:
+            v = d["type_views"]
+            # (repr/str of the stand-in class show its __qualname__, which never was the remote name)
+            if "%s.%s" % (v["module"], v["name"]) != qual(cls) or v["reforwarded"] != qual(cls):
+                return "f.type does not identify %s: __module__=%r __name__=%r, forwarded on to a third party as %r" % (
+                    qual(cls), v["module"], v["name"], v["reforwarded"])
         want_parents = [qual(c) for c in inspect.getmro(cls)]
         if len(want_parents) != len(d["parents"]) or not all(trunc_expect(w, 200)(g) for w, g in zip(want_parents, d["parents"])):
             return "ancestry %r is not that of %s" % (d["parents"], qual(cls))
@@ -199,7 +269,10 @@ def judge_batch(ctx, impl, specs, opts, r, sigsuffix=""):
     for i, (s, d) in enumerate(zip(specs, r["results"])):
         if r["fired"][i] > 1:
             bad.append(("oracle/sibling-affected", "call %d fired %d times" % (i, r["fired"][i])))
-        if s["kind"] in ("ok", "ok-add"):
+        if s["kind"] == "multi" and isinstance(multi_expect(s), tuple):
+            if d is None or not d["ok"] or d["value"] != multi_expect(s)[1]:
+                bad.append(("oracle/sibling-affected", "fault-free call %d got %r" % (i, short(d))))
+        elif s["kind"] in ("ok", "ok-add"):
             want = s["v"] if s["kind"] == "ok" else s["v"] + 1
             if d is None or not d["ok"] or d["value"] != want:
                 bad.append(("oracle/sibling-affected", "fault-free call %d (expects %r) got %r" % (i, want, short(d))))
@@ -221,7 +294,13 @@ def judge_batch(ctx, impl, specs, opts, r, sigsuffix=""):
                     % (impl.shared_value(opts.get("later_shared", "mixed")), short(lt[1]))))
     runs = {"ok": "echo", "ok-add": "add", "shared": "echo", "mixed-keys": "echo", "raise": "boom", "raise-noargs": "boom_noargs",
             "result-violates-callee": "wrongresult", "result-violates-caller": "text", "result-unsendable": "unsendable_result"}
-    want_exec = [runs[s["kind"]] for s in specs if s["kind"] in runs] + ["add", "echo"]
+    want_exec = []
+    for s in specs:
+        if s["kind"] in runs:
+            want_exec.append(runs[s["kind"]])
+        elif s["kind"] == "multi" and isinstance(multi_expect(s), tuple):
+            want_exec.append("echo3" if s["target"] == "plain" else "multi")
+    want_exec += ["add", "echo"]
     if r["executed"] != want_exec and not any(r["disconnected"]):
         bad.append(("oracle/wrong-calls-executed", "the callee ran %s, the batch asks for %s (a call whose arguments were aborted or "
                     "rejected must not run, every other call must run once, in order)" % (r["executed"], want_exec)))
@@ -240,7 +319,7 @@ def run_one(ctx, impl, specs, opts, tag, sigsuffix=""):
     with impl.quiet():
         r = impl.run_batch(specs, opts)
     fine = judge_batch(ctx, impl, specs, opts, r, sigsuffix)
-    nontrivial = all(r["fired"]) and all((d is not None and (not d["ok"] or s["kind"] in ("ok", "ok-add", "shared", "mixed-keys")))
+    nontrivial = all(r["fired"]) and all((d is not None and (not d["ok"] or s["kind"] in ("ok", "ok-add", "shared", "mixed-keys", "multi")))
                                          for s, d in zip(specs, r["results"]))
     ctx.case([tag, specs, opts], nontrivial=nontrivial and fine)
     for s, d in zip(specs, r["results"]):
@@ -299,6 +378,36 @@ def sweep(ctx, impl):
                 r = run_one(ctx, impl, specs, opts, "sweep")
                 kept.append((specs, opts, r))
                 n += 1
+    # several faults in one call
+    mc = multi_catalogue(ctx.tier == "thorough")
+    for mi, f in enumerate(mc):
+        opts = dict(allopts[mi % 4], later_shared=impl.SHARED_VARIANTS[mi % 4])
+        specs = [dict(kind="ok", v=300 + mi), f, dict(kind="ok-add", v=mi), dict(kind="shared", variant=impl.SHARED_VARIANTS[(mi + 1) % 4])]
+        if mi % 3 == 1:
+            specs = [specs[1], specs[0]] + specs[2:]
+        r = run_one(ctx, impl, specs, opts, "multi")
+        kept.append((specs, opts, r))
+        ctx.hist("multi_faults_in_one_call", "%d caller-side + %d callee-side%s" % (
+            sum(k in CALLER_SIDE for k in f["slots"]), sum(k in ("illtyped", "illtyped-deep") for k in f["slots"]) if f["target"] == "typed" else 0,
+            "" if f.get("known", True) else " + unknown method"))
+    # histories of failing calls whose exception classes share a bare name but not a module: every ordered pair, in one
+    # batch and across batches (what the caller keeps about remote types is process-wide state)
+    groups = {}
+    for h in HOMONYM_NAMES:
+        groups.setdefault(h.split("@")[0], []).append(h)
+    hi = 0
+    for g in sorted(groups):
+        for a in groups[g]:
+            for b in groups[g]:
+                if a == b:
+                    continue
+                hi += 1
+                opts = dict(allopts[hi % 4], later_shared="twice")
+                m1, m2 = MSGS[hi % len(MSGS)], MSGS[(hi + 5) % len(MSGS)]
+                for specs in ([dict(kind="raise", cls=a, msg=m1), dict(kind="ok", v=hi), dict(kind="raise", cls=b, msg=m2)],
+                              [dict(kind="raise", cls=b, msg=m1)], [dict(kind="raise", cls=a, msg=m2), dict(kind="raise", cls=a, msg=m1)]):
+                    r = run_one(ctx, impl, specs, opts, "homonym")
+                    kept.append((specs, opts, r))
     ctx.sample(dict(kind="sweep", specs=kept[7][0], opts=kept[7][1], observed=[short(x) for x in kept[7][2]["results"]]))
     # random batches: 4-6 calls, each faulty with probability 0.4
     for i in range(ctx.n(60, 1500)):
@@ -306,7 +415,7 @@ def sweep(ctx, impl):
         specs = []
         for j in range(size):
             if ctx.rng.random() < 0.4:
-                specs.append(ctx.rng.choice(cat))
+                specs.append(ctx.rng.choice(cat) if ctx.rng.random() < 0.7 else ctx.rng.choice(mc))
             else:
                 u = ctx.rng.random()
                 specs.append(dict(kind="ok", v=ctx.rng.randrange(-5, 10 ** 6)) if u < 0.35 else
@@ -315,7 +424,8 @@ def sweep(ctx, impl):
         opts = dict(ctx.rng.choice(allopts), later_shared=ctx.rng.choice(impl.SHARED_VARIANTS))
         r = run_one(ctx, impl, specs, opts, "random")
         kept.append((specs, opts, r))
-        ctx.hist("faults_per_batch", sum(1 for s in specs if s["kind"] not in ("ok", "ok-add", "shared")))
+        ctx.hist("faults_per_batch", sum(1 for s in specs if s["kind"] not in ("ok", "ok-add", "shared")
+                                         and not (s["kind"] == "multi" and isinstance(multi_expect(s), tuple))))
     ctx.sample(dict(kind="random", specs=kept[-1][0], opts=kept[-1][1], observed=[short(x) for x in kept[-1][2]["results"]]))
     ctx.extra["batches"] = len(kept)
     return kept
@@ -388,6 +498,12 @@ def call_tree(impl, spec):
     kw = {}
     if k == "ok":
         args = [spec["v"]]
+    elif k == "multi":
+        a = impl.multi_args(spec)
+        if spec["target"] == "plain":
+            args, kw = [a[0], a[1]], {"c": a[2]}
+        else:
+            args, kw = [a[0]], {"b": a[1], "c": a[2]}
     elif k == "shared":
         args = [impl.shared_value(spec["variant"])]
     elif k == "ok-add":
@@ -459,7 +575,8 @@ Eval vm_compute in map (fun c => let s := run (init (fst c)) (flat_map events_of
             # which calls' sends were aborted on the real side: the caller saw a local, uncopied Violation that is not about the answer
             real_log = []
             for s, d in zip(specs, r["results"]):
-                aborted = s["kind"] in ("unserializable", "slicer-raises", "arg-surrogate") and d is not None and not d["ok"] and not d["copied"]
+                aborted = (s["kind"] in ("unserializable", "slicer-raises", "arg-surrogate") or
+                           (s["kind"] == "multi" and multi_expect(s) == "local")) and d is not None and not d["ok"] and not d["copied"]
                 real_log.append(1 if aborted else 0)
             real_log += [0, 0]
             real_up = not r["disconnected"][0]
